@@ -23,6 +23,7 @@ pub fn defs() -> Vec<ScenDef> {
         d("rw", rw, false),
         d("rwc", rwc, true),
         d("rwcr", rwcr, true),
+        d("semlock", semlock, false),
         d("relock", relock, true),
         d("rwseq", rwseq, false),
         d("hsmutex", hsmutex, false),
@@ -251,6 +252,52 @@ fn sem(x: &mut Exec) -> Res {
     let expect = init + p - succ;
     if s.get_value() != expect {
         return viol(format!("Semphore: value {} != init {} + posts {} - successful waits {} (permit lost or duplicated)", s.get_value(), init, p, succ));
+    }
+    Ok(())
+}
+
+/// a semaphore with `init` permits used as a lock: never more than `init` parties between wait and post. Sections last
+/// about as long as the planned stalls, so a post keeps landing while other parties are between registering and counting.
+fn semlock(x: &mut Exec) -> Res {
+    let init = x.rng.range(1, 2) as usize;
+    let s = Arc::new(Semphore::new(init));
+    let parties = x.rng.range(3, 4) as usize;
+    let sections = x.rng.range(4, if x.thorough { 16 } else { 8 });
+    let inside = Arc::new(AtomicIsize::new(0));
+    let errs = Arc::new(std::sync::Mutex::new(Vec::<String>::new()));
+    let mut kinds = vec![];
+    for i in 0..parties {
+        let (s, inside, errs) = (s.clone(), inside.clone(), errs.clone());
+        let is_co = if i < 2 { false } else { x.rng.chance(1, 2) };
+        kinds.push(is_co);
+        let mut r = x.rng.fork();
+        x.spawn(&format!("p{}", i), is_co, move |a| {
+            for k in 0..sections {
+                a.call("wait", k);
+                s.wait();
+                a.ret("wait", k, 1);
+                let n = inside.fetch_add(1, SeqCst) + 1;
+                if n as usize > init {
+                    errs.lock().unwrap().push(format!("{} parties between wait and post of a Semphore::new({}) (a permit was duplicated)", n, init));
+                }
+                nap(r.below(900));
+                inside.fetch_sub(1, SeqCst);
+                a.call("post", k);
+                s.post();
+                a.ret("post", k, 0);
+                if r.chance(1, 3) {
+                    nap(r.below(300));
+                }
+            }
+        });
+    }
+    x.desc = format!("semaphore({}) as a lock: {} parties (co={:?}) x {} sections", init, parties, kinds, sections);
+    x.wait_all()?;
+    if let Some(e) = errs.lock().unwrap().first() {
+        return viol(format!("Semphore: {}", e));
+    }
+    if s.get_value() != init {
+        return viol(format!("Semphore: value {} after equal numbers of waits and posts on Semphore::new({})", s.get_value(), init));
     }
     Ok(())
 }
